@@ -19,6 +19,7 @@ From Coq Require Import ZArith NArith String List Bool.
 Import ListNotations.
 From TP Require Import Base.PyVal Base.PyEq Fields.FieldAst Fields.SetChain Fields.Doc Struct.Instance
   Ser.Json Ser.Serialize Ser.Deserialize Ser.RoundTripProofs Ser.SerOps Gen.SerSites Ser.SerTieProofs.
+From TP Require Import Base.PyOps2 Gen.EnumGuards Ser.EnumGuardProofs.
 Local Open Scope string_scope.
 
 Section C05.
@@ -116,6 +117,24 @@ Theorem C05_src_enum_serialize_falsy :
   forall cls n x, json_value_ok x = true -> py_truthy x = false -> Enum_serialize true true (PEnum cls n x) = Ok x.
 Proof. exact src_enum_serialize_falsy. Qed.
 
+(* the whole of Enum.serialize / Enum.deserialize as translated from enum.py on every run (Gen/EnumGuards.v) IS the model's
+   pair ser_enum_member / deser_enum_cls: for every enum class, every declared subset of its members, by name and by
+   value, and every document -- an edit of either method (which lookup, which truthiness test, which exception) breaks
+   one of these *)
+Theorem C05_src_enum_serialize_member : forall re_match cls members all bv c n x,
+    Enum__serialize re_match (enumcls_self cls members all bv) (PEnum c n x) = ser_enum_member bv (PEnum c n x).
+Proof. exact generated_enum_serialize_member. Qed.
+
+Theorem C05_src_enum_deserialize : forall re_match e ens d cls members v,
+    find_enum ens cls = Some d -> members_of_class members (en_members d) ->
+    Enum__deserialize re_match (enumcls_self cls members (en_members d) (en_by_value d)) v
+    = deser_enum_cls re_match e ens (FEnumCls cls members) cls members v.
+Proof. exact generated_enum_deserialize_cls. Qed.
+
+Theorem C05_src_enum_deserialize_literal : forall re_match e values v,
+    Enum__deserialize re_match (enumlit_self values) v = (_ <- validate_weak re_match e (FEnumLit values) v ;; Ok v).
+Proof. exact generated_enum_deserialize_lit. Qed.
+
 (* the full statement (every valid instance of every class over the property's vocabulary) is false of the faithful
    model: F17, a required field whose declaration admits None and that holds None *)
 Theorem C05_refuted_required_none : ~ C05_statement.
@@ -132,6 +151,9 @@ Print Assumptions C05_src_option_dispatch_catches_everything.
 Print Assumptions C05_src_item_errors_are_te_ve.
 Print Assumptions C05_src_enum_serialize.
 Print Assumptions C05_src_enum_serialize_falsy.
+Print Assumptions C05_src_enum_serialize_member.
+Print Assumptions C05_src_enum_deserialize.
+Print Assumptions C05_src_enum_deserialize_literal.
 
 (* ---- non-vacuity: a nested instance with falsy values at every position satisfies [canon], and the
    theorem's conclusion computes *)
